@@ -50,7 +50,7 @@
 (define-fun gs.len ((s Str)) Int (- (shi s) (slo s)))
 (define-fun gs.at ((s Str) (i Int)) Int (sbyte (sbase s) (+ (slo s) i)))
 (define-fun gs.sub ((s Str) (i Int) (j Int)) Str (mkstr (sbase s) (+ (slo s) i) (+ (slo s) j)))
-(define-fun gs.wf ((s Str)) Bool (and (<= 0 (slo s)) (<= (slo s) (shi s)) (<= (shi s) (blen (sbase s))) (<= (blen (sbase s)) 281474976710656)))
+(define-fun gs.wf ((s Str)) Bool (and (<= 0 (slo s)) (<= (slo s) (shi s)) (<= (shi s) (blen (sbase s))) (<= (blen (sbase s)) 1099511627776)))
 ; @section bytes sbyte gs.at blen gs.wf gs.len
 (assert (forall ((b Int) (i Int)) (! (and (<= 0 (sbyte b i)) (<= (sbyte b i) 255)) :pattern ((sbyte b i)))))
 (assert (forall ((b Int)) (! (and (<= 0 (blen b)) (<= (blen b) MaxInt)) :pattern ((blen b)))))
@@ -108,7 +108,7 @@
 (define-fun kind.lo ((k Int)) Int (ite (= k 1) (- 128) (ite (= k 2) (- 32768) (ite (= k 3) (- 2147483648) (ite (or (= k 4) (= k 5)) MinInt 0)))))
 (define-fun kind.hi ((k Int)) Int (ite (= k 1) 127 (ite (= k 2) 32767 (ite (= k 3) 2147483647 (ite (or (= k 4) (= k 5)) MaxInt
    (ite (= k 6) 255 (ite (= k 7) 65535 (ite (= k 8) 4294967295 18446744073709551615))))))))
-(define-fun slice.wf ((s Slice)) Bool (and (<= 0 (slen s)) (<= (slen s) (scap s)) (<= (scap s) 281474976710656) (<= 0 (soff s)) (>= (sref s) 0) (=> (= (sref s) 0) (= (scap s) 0))))
+(define-fun slice.wf ((s Slice)) Bool (and (<= 0 (slen s)) (<= (slen s) (scap s)) (<= (scap s) 17592186044416) (<= 0 (soff s)) (>= (sref s) 0) (=> (= (sref s) 0) (= (scap s) 0))))
 (define-fun val.wf ((v Val)) Bool (and
   (=> ((_ is VStr) v) (and (gs.wf (vstr v)) (gs.aligned (vstr v))))
   (=> ((_ is VJNum) v) (gs.wf (vjnum v)))
@@ -134,7 +134,7 @@
 (assert (forall ((a Val)) (! (=> (not ((_ is VArr) a)) (val.ifaceeq a a)) :pattern ((val.ifaceeq a a)))))
 ; @section core
 ; allocation limit: the largest element count a make() may ask for (anything above is a runtime panic)
-(define-fun MaxAlloc () Int 281474976710656)
+(define-fun MaxAlloc () Int 17592186044416)
 ; floats are uninterpreted except for the facts listed here (DESIGN.md 2.3)
 (declare-fun f64.add (F64 F64) F64) (declare-fun f64.sub (F64 F64) F64) (declare-fun f64.mul (F64 F64) F64) (declare-fun f64.div (F64 F64) F64)
 (declare-fun f64.neg (F64) F64) (declare-fun f64.eq (F64 F64) Bool) (declare-fun f64.lt (F64 F64) Bool) (declare-fun f64.le (F64 F64) Bool)
@@ -207,7 +207,7 @@
            (and (= (- (shi s) sz) (roff (sbase s) (- (ridx (sbase s) (shi s)) 1)))
                 (= r (runit (sbase s) (- (ridx (sbase s) (shi s)) 1)))))))
 ; @section units gs.units
-(assert (forall ((s Str)) (! (and (<= 0 (gs.units s)) (<= (gs.units s) (gs.len s)) (=> (gs.aligned s) (= (gs.units s) (gs.runes s)))) :pattern ((gs.units s)))))
+(assert (forall ((s Str)) (! (=> (gs.wf s) (and (<= 0 (gs.units s)) (<= (gs.units s) (gs.len s)) (=> (gs.aligned s) (= (gs.units s) (gs.runes s))))) :pattern ((gs.units s)))))
 ; @section core
 ; @section floatfacts f64.lt f64.le f64.eq f64.isint f64.inintrange f32.lt f32.le f32.eq f32.inintrange
 (assert (forall ((a F64) (b F64)) (! (or (f64.lt a b) (f64.lt b a) (f64.eq a b) (f64.isnan a) (f64.isnan b)) :pattern ((f64.lt a b)))))
